@@ -79,6 +79,7 @@ inductive Ev where
   | moved (item dest : Nat)                      -- `item` moved itself into `dest`
   | movedNone (item dest : Nat)                  -- ... refused
   | hookMoved (item : Nat)                       -- move_or_destruct() returned and the item is somewhere else: it survives
+  | zshb (o : Nat) (n : Int)                     -- o called set_heart_beat(n) in itself - possibly after destruct(this_object())
   | coBegin (o : Nat)                            -- call_out callback of o entered (dispatched by call_heart_beat after the round)
   | coEnd (o : Nat)                              -- ... returned
   | passLimit                                    -- harness rule: no further timer tick is delivered inside this `tick`
@@ -314,6 +315,11 @@ def judge1 (j : JState) (e : Ev) : JState :=
   | .hookMoved i => if j.alive i then j else j.flagV s!"moved-item-is-gone {showOid i}"
   -- a call_out callback is ordinary code outside every heart_beat: whatever it does - an uncaught error included - is
   -- judged by the clauses of the operations it performs; in particular `.err` switches off nobody here (`cur` is none)
+  | .zshb s n =>
+    -- a destructed object is never (again) on the list: its own set_heart_beat is refused, whatever the argument
+    if !opAllowed j then j.flagV s!"operation-outside-beat zshb {showOid s}"
+    else if !j.alive s then j
+    else jSet j s n
   | .coBegin _ => j
   | .coEnd _ => j
   | .passLimit =>
